@@ -82,6 +82,9 @@ def desc_term(d):
         return C(k, [val_term(x) for x in d[1]])
     if k == "DMap":
         return C(k, [(val_term(a), val_term(b)) for a, b in d[1]])
+    if k == "DTuple" and len(d) > 2 and d[2] == "Validated":       # ValidatedTuple
+        fv = None if d[3] in (None, "none") else Some(0 if d[3] == "true" else int(d[3]))
+        return C("DVTuple", [desc_term(x) for x in d[1]], fv)
     if k in ("DTuple", "DCompound", "DUnion"):
         return C(k, [desc_term(x) for x in d[1]])
     if k == "DInstance":
@@ -98,6 +101,10 @@ def desc_term(d):
         return C(k, [[int(c) for c in s] for s in d[1]])
     if k == "DPrefixMap":
         return C(k, [([int(c) for c in s], val_term(x)) for s, x in d[1]])
+    if k == "DList":
+        return C(k, desc_term(d[1]), int(d[2]), int(d[3]))
+    if k == "DRangeDyn":
+        return C(k, int(d[1]), int(d[2]), int(d[3]))
     if k == "DArray":
         def dim(x):
             if x is None:
@@ -312,6 +319,34 @@ ARRAY_VALUES = [["PArray", 30, [3], 0], ["PArray", 30, [2, 3], 1], ["PArray", 33
                 S("abc"), ["PInt", 5], ["PNone"], ["PFloat", F(0.5)], ["PBytes", [97]], ["POther", -2]]
 
 
+# List(<trait>) members (items validated through CTrait.validate of the item trait), alone and inside Either / Tuple / Union
+LISTS = [["DList", ["DInt"], 0, MAXSIZE], ["DList", ["DFloat"], 1, 3], ["DList", ["DCast", "CTInt"], 0, 2],
+         ["DList", ["DCompound", [["DInt"], ["DStr"]]], 0, MAXSIZE], ["DList", ["DTuple", [["DInt"], ["DFloat"]]], 0, MAXSIZE],
+         ["DList", ["DList", ["DBool"], 0, 2], 0, MAXSIZE], ["DList", ["DInstance", 100, False, False], 2, MAXSIZE],
+         ["DList", ["DRangeF", F(0.0), F(1.0), 1], 0, MAXSIZE], ["DList", ["DAny"], 0, 1]]
+LIST_CONTAINERS = [["DCompound", [["DInt"], ["DList", ["DInt"], 0, MAXSIZE]]],
+                   ["DCompound", [["DList", ["DFloat"], 0, 2], ["DTuple", [["DInt"], ["DInt"]]], ["DStr"]]],
+                   ["DCompound", [["DList", ["DStr"], 1, MAXSIZE], ["DList", ["DInt"], 0, MAXSIZE]]],
+                   ["DTuple", [["DList", ["DInt"], 0, MAXSIZE], ["DFloat"]]],
+                   ["DTuple", [["DCompound", [["DList", ["DCast", "CTFloat"], 0, MAXSIZE], ["DEnum", [["PNone"]]]]], ["DInt"]]],
+                   ["DUnion", [["DList", ["DInt"], 0, 2], ["DList", ["DStr"], 0, MAXSIZE]]],
+                   ["DUnion", [["DInt"], ["DList", ["DFloat"], 0, MAXSIZE]]]]
+
+
+def list_values(rnd, n):
+    flat = [a for a in ATOMS if a[0] not in ("PTuple", "PTupleSub", "PList", "PUndefined", "PArray")]
+    out = [["PList", []], ["PList", [["PInt", 1]]], ["PList", [["PInt", 1], ["PInt", 2]]], ["PList", [["PBool", True], ["PIntSub", 3], ["PInt", 0]]],
+           ["PList", [["PFloat", F(0.5)], ["PInt", 1]]], ["PList", [S("a"), S("12")]], ["PList", [["PInt", 1], S("a")]],
+           ["PList", [["PInt", 10 ** 400]]], ["PList", [["PInt", 1], ["PIndexObj", ["Raises", "EValueError"]], S("a")]],
+           ["PList", [["PTuple", [["PInt", 1], ["PInt", 2]]], ["PTuple", [["PBool", True], ["PFloat", F(0.5)]]]]],
+           ["PList", [["PList", [["PBool", True]]], ["PList", []]]], ["PList", [["PObj", 100, 1], ["PObj", 101, 1]]],
+           ["PList", [["PObj", 100, 1], ["PNone"]]], ["PTuple", [["PInt", 1], ["PInt", 2]]], ["PInt", 1], ["PNone"], S("ab"),
+           ["PList", [["PFloat", NAN]]], ["PList", [["PFloat", F(0.5)], ["PFloat", F(1.0)]]], ["PList", [["PNpInt", 15, 1], ["PNpFloat", 18, F(0.5)]]]]
+    for _ in range(n):
+        out.append(["PList", [rnd.choice(flat) for _ in range(rnd.choice([0, 1, 2, 2, 3, 4]))]])
+    return out
+
+
 def fast_leaves(layer2=True):
     out = SIMPLE_FAST + float_ranges()[:8] + ENUMS[:3] + instances()
     if layer2:
@@ -319,21 +354,24 @@ def fast_leaves(layer2=True):
     return out
 
 
-def gen_desc(rnd, depth, compound_ok=True, layer2=True):
-    """a random (nested) fast-path configuration"""
-    leaves = fast_leaves(layer2)
+def gen_desc(rnd, depth, compound_ok=True, layer2=True, extra=()):
+    """a random (nested) fast-path configuration; `extra`: more leaf configurations (not used below a nested compound)"""
+    leaves = fast_leaves(layer2) + list(extra)
     slow = STRINGS[:4] + int_ranges()[:4] + types_()[:2] + PREFIXES[:1] if layer2 else STRINGS[1:3]
     r = rnd.random()
     if depth <= 0 or r < 0.35:
         return rnd.choice(leaves)
     if r < 0.65:
-        return ["DTuple", [gen_desc(rnd, depth - 1, True, layer2) for _ in range(rnd.choice([1, 2, 2, 3]))]]
+        return ["DTuple", [gen_desc(rnd, depth - 1, True, layer2, extra) for _ in range(rnd.choice([1, 2, 2, 3]))]]
     if compound_ok:
         n = rnd.choice([2, 2, 3, 4])
         alts = []
         for _ in range(n):
             # an alternative may itself be an Either (flattened by TraitCompound.set_validate)
-            a = gen_desc(rnd, depth - 1, rnd.random() < 0.25, layer2) if rnd.random() < 0.8 else rnd.choice(slow)
+            nested = rnd.random() < 0.25
+            a = gen_desc(rnd, depth - 1, nested, layer2, () if nested else extra) if rnd.random() < 0.8 else rnd.choice(slow)
+            if a[0] == "DTuple" and not nested:
+                pass
             alts.append(a)
         if not any(is_fast(a) for a in alts):
             alts[rnd.randrange(n)] = rnd.choice(leaves)
@@ -345,7 +383,7 @@ def gen_desc(rnd, depth, compound_ok=True, layer2=True):
 
 def is_fast(d):
     k = d[0]
-    if k in ("DAny", "DRangeI", "DType", "DString", "DPrefixList", "DPrefixMap", "DUnion", "DArray"):
+    if k in ("DAny", "DRangeI", "DType", "DString", "DPrefixList", "DPrefixMap", "DUnion", "DArray", "DList", "DRangeDyn"):
         return False
     if k == "DTuple":
         return len(d[1]) > 0
@@ -360,6 +398,8 @@ def desc_kinds(d, acc=None):
     if d[0] in ("DTuple", "DCompound", "DUnion"):
         for x in d[1]:
             desc_kinds(x, acc)
+    if d[0] == "DList":
+        desc_kinds(d[1], acc)
     return acc
 
 
@@ -370,6 +410,8 @@ def shape(d):
         return "%s(%s)" % (k[1:], ",".join(shape(x) for x in d[1]))
     if k == "DCast":
         return d[1][2:].join(["C", ""])
+    if k == "DList":
+        return "List(%s)" % shape(d[1])
     return k[1:]
 
 
